@@ -79,7 +79,9 @@ impl PItem {
 
 impl SkimItem for PItem {
     fn text(&self) -> Cow<str> {
-        Cow::Owned(format!("it{}", self.spec.id))
+        // every item lists the SAME text (duplicate lines, lines that differ only in columns hidden by --with-nth):
+        // which item is current is a matter of identity, never of the listed text
+        Cow::Borrowed("it")
     }
 
     fn output(&self) -> Cow<str> {
